@@ -16,24 +16,33 @@ import poolcommon as pc
 
 REQUIRED_THEOREMS = [
     "C10_running_le_max", "C10_serving_le_max", "C10_ctor_max_rejected", "C10_ctor_min_rejected", "C10_ctor_accepted",
-    "C10_counters_exact", "C10_threads_le_max",
+    "C10_ctor_nonfinite", "C10_counters_exact", "C10_start_failure_rollback", "C10_threads_le_max",
     "C10_no_starvation_owed", "C10_no_starvation", "C10_no_starvation_unlocked", "C10_free_worker_exists",
     "C10_min_floor", "C10_serving_eq_threads",
     "C10_progress_no_stuck_worker", "C10_progress_no_stuck", "C10_progress_measure",
     "C10_gen_poolGrowthRule", "C10_gen_poolSpawnRefusal", "C10_gen_poolRetireRule", "C10_gen_poolPendingStores",
     "C10_gen_poolClearDecrementsTasksOnly", "C10_gen_poolCtorDefaults", "C10_gen_poolUnlockedAccesses",
+    "C10_gen_poolCtorCatches", "C10_gen_poolStartRollback", "C10_gen_poolRunHandlerSafe",
 ]
 
-MIX = [(3, "GR", None), (2, "G", (3, 0)), (1, "G", (2, 0)), (2, "G", None), (2, "L1", None), (2, "L2", None), (1, "W", None)]
+MIX = [(3, "GR", None), (2, "G", (3, 0)), (1, "G", (2, 0)), (2, "G", None), (2, "L1", None), (2, "L2", None), (1, "W", None),
+       (2, "F", None), (1, "S", None), (1, "N", None)]
 
+INF = float("inf")
 ARGS = [1, 2, 3, 0, -1, -5, 7, True, False, 1.0, 2.7, 0.5, -0.5, -3.2, 3.999, "2", " 3 ", "-1", "0", "x", "", "2.5", "1e3",
-        None, [], {}, (1,), b"2", 10 ** 6]
+        None, [], {}, (1,), b"2", 10 ** 6,
+        # non-finite and huge values: int() raises OverflowError (inf; 1e400 is inf) / ValueError (nan)
+        INF, -INF, float("nan"), 1e400, 1e308, -1e308, 10 ** 400, "inf", "nan"]
 
 
 def abstract(v):
     if isinstance(v, bool) or isinstance(v, int):
         return "i%d" % int(v)
     if isinstance(v, float):
+        if v != v:
+            return "fnan"
+        if v in (INF, -INF):
+            return "finf" if v > 0 else "f-inf"
         return "f%d" % math.trunc(v)
     if isinstance(v, (str, bytes)):
         try:
@@ -49,7 +58,8 @@ def numeric(v):
     """int(v) as the documentation means it: the value or None when v is not numeric."""
     try:
         return int(v)
-    except (TypeError, ValueError):
+    except (TypeError, ValueError, OverflowError):
+        # inf / nan are not numbers of threads either
         return None
 
 
@@ -81,7 +91,7 @@ def ctor_monitor(mx, mn, qs, kind, val):
 def ctor_cases(ctx):
     cases = []
     for mx in ARGS:
-        for mn in [1, 0, -2, 5, 2.9, "1", "x", None, [], True]:
+        for mn in [1, 0, -2, 5, 2.9, "1", "x", None, [], True, INF, float("nan")]:
             cases.append((mx, mn, 0))
     for mn in ARGS:
         cases.append((3, mn, 0))
@@ -107,7 +117,9 @@ def ctor_check(ctx):
             io = "err " + type(val).__name__
         lines.append("poolctor %s %s %s" % (abstract(mx), abstract(mn), abstract(qs)))
         impl_out.append(io)
-        ctx.count(None, ("ctor", abstract(mx)[0], abstract(mn)[0], abstract(qs)[0], io.split(" ")[0]), "ctor/" + io.split(" ")[0])
+        def cls(a):
+            return a if a in ("finf", "f-inf", "fnan") else a[0]
+        ctx.count(None, ("ctor", cls(abstract(mx)), cls(abstract(mn)), cls(abstract(qs)), io.split(" ")[0]), "ctor/" + io.split(" ")[0])
     outs = ctx.lean(lines)
     for ln, mo, io in zip(lines, outs, impl_out):
         if mo != io:
@@ -117,12 +129,12 @@ def ctor_check(ctx):
 
 def run(ctx):
     ctor_check(ctx)
-    pc.check(ctx, "C10", MIX, 700, 9000)
+    pc.check(ctx, "C10", MIX, 600, 9000)
 
 
 def search(ctx):
     """Tie broken and no monitor hit yet: one bounded search for a failing input (no lockstep)."""
-    pc.check(ctx, "C10", MIX, 500, 3000)
+    pc.check(ctx, "C10", MIX, 500, 1500)
 
 
 def replay(payload):
